@@ -160,7 +160,7 @@ def get_cycle_vector(phase, return_good=True, mask=None,
         if inds[0] >= 1:
             inds = np.r_[0, inds]
         if inds[-1] <= phase.shape[0] - 1:
-            inds = np.r_[inds, phase.shape[0] - 1]
+            inds = np.r_[inds, phase.shape[0]]
 
         count = 0
         for jj in range(len(inds) - 1):
